@@ -244,6 +244,51 @@ func c09GraphSearch(sh *explore.Shard, idx *int64) {
 			})
 		sh.C.Sample(6, map[string]any{"part": "explicit-state search at the Graph API", "trees": big, "states": "delivered sets (2^k)", "transitions": "k*2^(k-1), each = replay of one path on a fresh Graph + one delivery"})
 	}
+	// (2b) wide trees: 255/256/257/300 entries pointing at one child and at distinct children
+	for _, width := range []int{255, 256, 257, 300} {
+		for _, distinct := range []bool{false, true} {
+			*idx++
+			if !sh.Mine(*idx) || sh.Expired() {
+				continue
+			}
+			r := mrepo.New()
+			lv := gen.AddLeaves(r)
+			var ts []mrepo.ID
+			var es []mrepo.Entry
+			nchild := 1
+			if distinct {
+				nchild = 3
+			}
+			for c := 0; c < nchild; c++ {
+				ts = append(ts, r.AddTree([]mrepo.Entry{{Mode: 0o100644, Name: fmt.Sprintf("f%d", c), Child: lv.BlobA}}))
+			}
+			for i := 0; i < width; i++ {
+				es = append(es, mrepo.Entry{Mode: 0o40000, Name: fmt.Sprintf("d%03d", i), Child: ts[i%nchild]})
+			}
+			wide := r.AddTree(es)
+			ts = append(ts, wide, r.AddTree([]mrepo.Entry{{Mode: 0o40000, Name: "w", Child: wide}}))
+			want := oracle.Compute(r, ts).Numbers()
+			blobs := []mrepo.ID{lv.BlobA}
+			c09SetSearch(sh, fmt.Sprintf("graph-api wide tree width=%d children=%d", width, nchild), len(ts),
+				func(order []int) (*sizes.Graph, any) {
+					ids := make([]mrepo.ID, len(order))
+					for i, o := range order {
+						ids[i] = ts[o]
+					}
+					return graphWithTrees(r, blobs, ids)
+				},
+				func(g *sizes.Graph) string {
+					hs := g.HistorySize()
+					got := inprocNumbers(&hs)
+					for _, key := range append(append([]string(nil), checkoutKeys...), "unique_tree_count", "unique_tree_entries") {
+						if got[key] != want[key] {
+							return fmt.Sprintf("%s: %d, true %d", key, got[key], want[key])
+						}
+					}
+					return ""
+				})
+		}
+	}
 	// (3) tag forests
 	m := 5
 	if sh.Tier == "thorough" {
